@@ -80,6 +80,10 @@ func (c *evalOrderChecker) hasPtrRecv(fn *ast.Ident) bool {
 	if !ok {
 		return false
 	}
+	if sig.Recv() == nil {
+		// Not a method: a call of a func-valued field.
+		return false
+	}
 	return typep.IsPointer(sig.Recv().Type())
 }
 
